@@ -325,7 +325,10 @@ func writeAll(w *os.File, data []byte) error {
 	return nil
 }
 
-func writeLinkEvent(dir string, opts GlobalOptions, eventType, from, to string) error {
+// writeLinkEvents validates and records all edges of one `sequence` command in a single lock
+// section and a single append: either every edge of the chain is recorded or none is. Each edge is
+// checked against the graph including the edges accepted before it in the same chain.
+func writeLinkEvents(dir string, opts GlobalOptions, eventType string, edges []sequenceEdge) error {
 	lockPath := filepath.Join(dir, "lock")
 	eventsPath := getEventsPath(dir)
 	return withLock(lockPath, syscall.LOCK_EX, func() error {
@@ -333,43 +336,54 @@ func writeLinkEvent(dir string, opts GlobalOptions, eventType, from, to string) 
 		if err != nil {
 			return err
 		}
-		if _, ok := graph.Tombstones[from]; ok {
-			return prunedErr(from)
-		}
-		if _, ok := graph.Tombstones[to]; ok {
-			return prunedErr(to)
-		}
-		fromItem, ok := graph.Tasks[from]
-		if !ok {
-			return fmt.Errorf("unknown id %s", from)
-		}
-		toItem, ok := graph.Tasks[to]
-		if !ok {
-			return fmt.Errorf("unknown id %s", to)
-		}
-		// Validate dependency rules
-		if err := validateDepSelf(from, to); err != nil {
-			return err
-		}
-		if err := validateDepKinds(isEpic(fromItem), isEpic(toItem)); err != nil {
-			return err
-		}
-		// Cycle detection for new links
-		if eventType == "link" {
-			if hasCycle(graph, from, to) {
-				return errors.New("dependency would create a cycle")
+		events := make([]Event, 0, len(edges))
+		for _, edge := range edges {
+			from, to := edge.FromID, edge.ToID
+			if _, ok := graph.Tombstones[from]; ok {
+				return prunedErr(from)
 			}
+			if _, ok := graph.Tombstones[to]; ok {
+				return prunedErr(to)
+			}
+			fromItem, ok := graph.Tasks[from]
+			if !ok {
+				return fmt.Errorf("unknown id %s", from)
+			}
+			toItem, ok := graph.Tasks[to]
+			if !ok {
+				return fmt.Errorf("unknown id %s", to)
+			}
+			// Validate dependency rules
+			if err := validateDepSelf(from, to); err != nil {
+				return err
+			}
+			if err := validateDepKinds(isEpic(fromItem), isEpic(toItem)); err != nil {
+				return err
+			}
+			// Cycle detection for new links
+			if eventType == "link" {
+				if hasCycle(graph, from, to) {
+					return errors.New("dependency would create a cycle")
+				}
+				if graph.Deps[from] == nil {
+					graph.Deps[from] = map[string]struct{}{}
+				}
+				graph.Deps[from][to] = struct{}{}
+			} else if graph.Deps[from] != nil {
+				delete(graph.Deps[from], to)
+			}
+			now := time.Now().UTC()
+			event, err := newEvent(eventType, now, LinkEvent{
+				FromID: from,
+				ToID:   to,
+				Type:   dependsLinkType,
+			})
+			if err != nil {
+				return err
+			}
+			events = append(events, event)
 		}
-		now := time.Now().UTC()
-		event, err := newEvent(eventType, now, LinkEvent{
-			FromID: from,
-			ToID:   to,
-			Type:   dependsLinkType,
-		})
-		if err != nil {
-			return err
-		}
-		return appendEvents(eventsPath, []Event{event})
+		return appendEvents(eventsPath, events)
 	})
 }
 
